@@ -465,6 +465,9 @@ func Judge(sc *Scenario, tr *Trace) ([]pbt.Violation, Stats) {
 		if len(members) > 0 && rt.Receiver != a.Receiver {
 			add(pbt.V("wrong-receiver", "flush of %s (route %s) went to receiver %s, routing says %s", a.GroupKey, a.RouteID, a.Receiver, rt.Receiver))
 		}
+		if a.Replaced {
+			add(pbt.V("notification-from-replaced-dispatcher", "notification to %s/%d for group %s at %s was made by the pipeline of a dispatcher that a configuration reload had already stopped and replaced: two dispatchers are grouping the same alerts", a.Receiver, a.Idx, a.GroupKey, a.T.Format(tf)))
+		}
 		listedFiring := map[string]bool{}
 		listedOnce := map[string]bool{}
 		for _, al := range a.Alerts {
